@@ -738,7 +738,7 @@ class SmiV2Parser(AbstractParser):
     def p_DefValPart(self, p):
         """DefValPart : DEFVAL '{' Value '}'
                       | empty"""
-        if p[1] and p[3]:
+        if p[1] and p[3] is not None:
             p[0] = (p[1], p[3])
 
     def p_Value(self, p):
